@@ -1,8 +1,12 @@
 package zv
 
 import (
+	"go/constant"
+	"os"
 	"fmt"
+	"go/token"
 	"go/types"
+	"regexp"
 	"strings"
 
 	"golang.org/x/tools/go/ssa"
@@ -50,6 +54,7 @@ func checkC19(c *Ctx) {
 	c.Rule("R19.2", "redirectStdLogAt: no error return after a log.SetX call; restore closure writes back the values read before the change", 5)
 	c.Rule("R19.3", "file URL: open of exactly u.Path is dominated by the user/fragment/query/port/host rejections", 4)
 	c.Rule("R19.4", "registries: single map store dominated by validity+absence tests, normalised key, under the lock, no error return after it", 10)
+	c.Rule("R19.6", "file sinks: exactly the given path is opened, for writing with O_APPEND|O_CREATE; stdout/stderr recognised verbatim", 4)
 	c.Rule("R19.5", "newEncoder rejects TimeKey without EncodeTime before the registry lookup", 1)
 
 	zp := ZapPath
@@ -63,14 +68,38 @@ func checkC19(c *Ctx) {
 	Open := c.Func(zp, "Open")
 	openSinks := c.Method(zp, "Config", "openSinks")
 	build := c.Method(zp, "Config", "Build")
-	if !c.Anchor("R19.1", "zap.open/Open/Config.openSinks/Config.Build", open != nil && Open != nil && openSinks != nil && build != nil) {
+	if !c.Anchor("R19.1", "zap.open/Open/Config.Build", open != nil && Open != nil && build != nil) {
 		return
 	}
-	acqs := []acq{
-		{open, "(*go.uber.org/zap.sinkRegistry).newSink", -2},
-		{Open, "go.uber.org/zap.open", 1},
-		{openSinks, "go.uber.org/zap.Open", 1},
-		{build, "(go.uber.org/zap.Config).openSinks", -1},
+	// every call, in Open / openSinks (if it exists as a function of its own) / Build, of a function that hands back
+	// opened sinks together with their closer
+	var acqs []acq
+	for _, fn := range []*ssa.Function{Open, openSinks, build} {
+		if fn == nil {
+			continue
+		}
+		for _, callee := range []*ssa.Function{open, Open, openSinks} {
+			if callee == nil || callee == fn {
+				continue
+			}
+			calls := false
+			for _, cl := range Calls(fn) {
+				if StaticCallee(cl) == callee {
+					calls = true
+				}
+			}
+			if !calls {
+				continue
+			}
+			idx := -1
+			res := callee.Signature.Results()
+			for k := 0; k < res.Len(); k++ {
+				if sg, ok := types.Unalias(res.At(k).Type()).Underlying().(*types.Signature); ok && sg.Params().Len() == 0 && sg.Results().Len() == 0 {
+					idx = k
+				}
+			}
+			acqs = append(acqs, acq{fn, callee.String(), idx})
+		}
 	}
 	for _, a := range acqs {
 		name := a.fn.String()
@@ -125,13 +154,25 @@ func checkC19(c *Ctx) {
 			c.Und("R19.1", name, "acquire", a.fn.Pos(), "no call of %s found", a.callee)
 		}
 	}
-	// open: every successfully opened sink is recorded in the closers slice captured by the closer closure
+	// open: by path exploration (two destinations): every sink that was opened is recorded for closing; a failure
+	// anywhere closes everything recorded before the error is returned; success hands out the closer of the same list
 	{
 		name := open.String()
-		var mk *ssa.MakeClosure
-		AllInstrs(open, func(i ssa.Instruction) {
-			if m, ok := i.(*ssa.MakeClosure); ok {
-				mk = m
+		// functions that close every element of a list of closers
+		closeAll := map[*ssa.Function]bool{}
+		c.EachRootFunc(func(f *ssa.Function) {
+			if f.Pkg == nil || f.Pkg.Pkg.Path() != zp {
+				return
+			}
+			for _, g := range WithClosures(f) {
+				for _, cl := range Calls(g) {
+					cm := cl.Common()
+					if IsCallTo(cl, "(io.Closer).Close") || (cm.IsInvoke() && cm.Method.Name() == "Close" && len(cm.Args) == 0) {
+						if ok, _, _ := LoopVisitsAll(g, cl); ok {
+							closeAll[g] = true
+						}
+					}
+				}
 			}
 		})
 		var newSink *ssa.Call
@@ -140,58 +181,151 @@ func checkC19(c *Ctx) {
 				newSink, _ = cl.(*ssa.Call)
 			}
 		}
-		if mk == nil || newSink == nil || len(mk.Bindings) != 1 {
-			c.Und("R19.1", name, "record", open.Pos(), "cannot find the closer closure (with exactly one captured variable) / the newSink call")
+		if newSink == nil || len(closeAll) == 0 {
+			c.Und("R19.1", name, "record", open.Pos(), "cannot find the newSink call / a function that closes every recorded sink")
 		} else {
-			closers := mk.Bindings[0]
-			// record = store to closers of append(load closers, …sink…)
-			var record ssa.Instruction
-			sinkRecorded := false
-			AllInstrs(open, func(i ssa.Instruction) {
-				st, ok := i.(*ssa.Store)
-				if !ok || st.Addr != closers {
-					return
+			resolve := func(st *ConcState, v ssa.Value) ssa.Value {
+				v = Strip(v)
+				for k := 0; k < 12; k++ {
+					nx := st.Step(v)
+					if nx == nil {
+						break
+					}
+					v = Strip(nx)
 				}
-				ap, ok := st.Val.(*ssa.Call)
-				if !ok || CallBuiltin(ap) != "append" {
-					return
+				return v
+			}
+			// is fv a function value that closes everything: a close-all literal/method value, or a literal that only calls one
+			var closerVal func(v ssa.Value, d int) bool
+			closerVal = func(v ssa.Value, d int) bool {
+				if d > 3 {
+					return false
 				}
-				record = st
-				// appended elements: stores into the varargs array
-				if sl, ok := ap.Call.Args[1].(*ssa.Slice); ok {
-					if arr, ok := sl.X.(*ssa.Alloc); ok && arr.Referrers() != nil {
-						for _, r := range *arr.Referrers() {
-							if ia, ok := r.(*ssa.IndexAddr); ok && ia.Referrers() != nil {
-								for _, rr := range *ia.Referrers() {
-									if s2, ok := rr.(*ssa.Store); ok {
-										if ex, ok := Strip(s2.Val).(*ssa.Extract); ok && ex.Tuple == ssa.Value(newSink) && ex.Index == 0 {
-											sinkRecorded = true
-										}
-									}
+				var f *ssa.Function
+				switch x := v.(type) {
+				case *ssa.MakeClosure:
+					f, _ = x.Fn.(*ssa.Function)
+				case *ssa.Function:
+					f = x
+				}
+				if f == nil {
+					return false
+				}
+				if closeAll[f] {
+					return true
+				}
+				for _, cl := range Calls(f) {
+					if sc := StaticCallee(cl); sc != nil && closeAll[sc] {
+						return true
+					}
+				}
+				return false
+			}
+			cut := 0
+			seqs, trunc := ConcPaths(open, ConcCfg{
+				MaxIter: 2, Cut: &cut,
+				Inline: func(h *ssa.Function) bool {
+					return !closeAll[h] && h.String() != "(*go.uber.org/zap.sinkRegistry).newSink"
+				},
+				Event: func(in ssa.Instruction, st *ConcState) string {
+					switch x := in.(type) {
+					case *ssa.Call:
+						if x == newSink || IsCallTo(x, "(*go.uber.org/zap.sinkRegistry).newSink") {
+							return "open"
+						}
+						if sc := StaticCallee(x); sc != nil && closeAll[sc] {
+							return "closeall"
+						}
+						if !x.Call.IsInvoke() && x.Call.StaticCallee() == nil && closerVal(resolve(st, x.Call.Value), 0) {
+							return "closeall"
+						}
+						if mk, ok := x.Call.Value.(*ssa.MakeClosure); ok && closerVal(mk, 0) {
+							return "closeall"
+						}
+						if CallBuiltin(x) == "append" {
+							if sl, ok := types.Unalias(x.Type()).Underlying().(*types.Slice); ok {
+								if m, _, _ := types.LookupFieldOrMethod(sl.Elem(), true, nil, "Close"); m != nil {
+									return "record"
 								}
 							}
 						}
+					case *ssa.Return:
+						if n, known := st.IsNil(x.Results[len(x.Results)-1]); known && n {
+							if len(x.Results) >= 2 && closerVal(resolve(st, x.Results[1]), 0) {
+								return "ret-ok(closer)"
+							}
+							return "ret-ok(" + st.Desc(x.Results[1]) + ")"
+						}
+						return "ret-err"
 					}
-				}
+					return ""
+				},
+				Branch: func(cond ssa.Value, taken bool, st *ConcState) string {
+					pol := taken
+					for k := 0; k < 8; k++ {
+						if u, ok := cond.(*ssa.UnOp); ok && u.Op == token.NOT {
+							cond, pol = u.X, !pol
+							continue
+						}
+						if nx := st.Step(cond); nx != nil {
+							cond = nx
+							continue
+						}
+						break
+					}
+					bo, ok := cond.(*ssa.BinOp)
+					if !ok || !IsNilConst(bo.Y) {
+						if os.Getenv("ZV_DEBUG") != "" {
+							return "cond?" + st.Desc(cond)
+						}
+						return ""
+					}
+					var ex *ssa.Extract
+					for v, k := bo.X, 0; k < 12 && ex == nil; k++ {
+						if e, ok := v.(*ssa.Extract); ok {
+							ex = e
+							break
+						}
+						nx := st.Step(v)
+						if nx == nil {
+							break
+						}
+						v = nx
+					}
+					if ex != nil && ex.Index == 1 {
+						if cl, ok := ex.Tuple.(*ssa.Call); ok && IsCallTo(cl, "(*go.uber.org/zap.sinkRegistry).newSink") {
+							if pol == (bo.Op == token.NEQ) {
+								return "fail"
+							}
+							return "ok"
+						}
+					}
+					return ""
+				},
 			})
-			h := LoopHeader(newSink.Block())
-			start := successStart(open, newSink)
-			skips := record == nil || h == nil || ExistsPath(open, start, func(x ssa.Instruction) bool { return x.Block() == h }, func(x ssa.Instruction) bool { return x == record })
-			c.Check(record != nil && sinkRecorded && !skips, "R19.1", name, "every-opened-sink-recorded", newSink.Pos(),
-				"on every path after newSink succeeded the sink itself is appended to the slice captured by the closer before the next iteration (recorded=%v, skippable=%v)", sinkRecorded, skips)
-			// closer visits all
-			var closeCall *ssa.Call
-			for _, cl := range Calls(mk.Fn.(*ssa.Function)) {
-				if IsCallTo(cl, "(io.Closer).Close") {
-					closeCall, _ = cl.(*ssa.Call)
+			re := regexp.MustCompile(`^(open (ok record|fail) )*(closeall ret-err|ret-ok\(closer\)) $`)
+			var bad []string
+			if os.Getenv("ZV_DEBUG") != "" {
+				for _, sq := range seqs {
+					fmt.Println("SEQ", sq)
 				}
 			}
-			if closeCall == nil {
-				c.Bad("R19.1", name, "closer-visits-all", mk.Pos(), "closer closure does not call Close")
-			} else {
-				ok, over, why := LoopVisitsAll(mk.Fn.(*ssa.Function), closeCall)
-				c.Check(ok && over == mk.Fn.(*ssa.Function).FreeVars[0].Name(), "R19.1", name, "closer-visits-all", closeCall.Pos(), "closer ranges over all recorded closers (%s) with no early exit %s", over, why)
+			for _, sq := range seqs {
+				toks := strings.Split(sq, " ; ")
+				line := strings.Join(toks, " ") + " "
+				failed := strings.Contains(line, " fail ") || strings.HasPrefix(line, "open fail ")
+				okForm := re.MatchString(line)
+				if okForm && failed != strings.HasSuffix(line, "ret-err ") {
+					okForm = false
+				}
+				if !okForm {
+					bad = append(bad, sq)
+				}
 			}
+			if len(bad) > 4 {
+				bad = append(bad[:4:4], "… "+itoa(len(bad)-4)+" more")
+			}
+			c.Check(!trunc && len(seqs) > 0 && len(bad) == 0, "R19.1", name, "all-or-nothing", newSink.Pos(), "over %d paths (two destinations, helpers inline; %d longer paths cut): every sink that opened is appended to the list of closers before anything else; if any destination failed, every recorded sink is closed and an error returned; otherwise the function that closes exactly that list is handed out: %v", len(seqs), cut, bad)
 			// loop over all paths, no early exit
 			ok, over, why := LoopVisitsAll(open, newSink)
 			c.Check(ok && over == "paths", "R19.1", name, "tries-all-paths", newSink.Pos(), "newSink is attempted for every path (%s) %s", over, why)
@@ -541,6 +675,8 @@ func checkC19(c *Ctx) {
 		}
 	}
 
+	c19FileOpen(c, "R19.6")
+
 	// ---------------- R19.5 ----------------
 	ne := c.Func(zp, "newEncoder")
 	if c.Anchor("R19.5", "zap.newEncoder", ne != nil) {
@@ -561,45 +697,466 @@ func c19Registry(c *Ctx, fn *ssa.Function, reg, mutex string, guards []string, k
 		return
 	}
 	name := fn.String()
-	held := MustHeld(fn, nil)
-	n := 0
-	AllInstrs(fn, func(i ssa.Instruction) {
-		mu, ok := i.(*ssa.MapUpdate)
-		if !ok || !strings.HasSuffix(Desc(mu.Map), reg) {
-			return
+	normalise := strings.HasPrefix(keyDesc, "normalizeScheme(")
+	var keyParam *ssa.Parameter
+	for _, p := range fn.Params {
+		if b, ok := p.Type().Underlying().(*types.Basic); ok && b.Kind() == types.String {
+			keyParam = p
+			break
 		}
-		n++
-		atoms := AtomStrings(Guards(mu))
-		has := func(w string) bool {
-			for _, a := range atoms {
-				if a == w {
-					return true
+	}
+	if !c.Anchor("R19.4", "string parameter of "+name, keyParam != nil) {
+		return
+	}
+	// by path exploration (helpers explored inline, the validator opaque): what each path does to the registry
+	resolve := func(st *ConcState, v ssa.Value) ssa.Value {
+		v = stripConv(v)
+		for k := 0; k < 12; k++ {
+			nx := st.Step(v)
+			if nx == nil {
+				break
+			}
+			v = stripConv(nx)
+		}
+		return v
+	}
+	isNorm := func(st *ConcState, v ssa.Value) (*ssa.Call, bool) {
+		cl, ok := v.(*ssa.Call)
+		if !ok || !IsCallTo(cl, "go.uber.org/zap.normalizeScheme") || len(cl.Call.Args) != 1 {
+			return nil, false
+		}
+		return cl, resolve(st, cl.Call.Args[0]) == ssa.Value(keyParam)
+	}
+	keyName := func(st *ConcState, k ssa.Value) string {
+		r := resolve(st, k)
+		if normalise {
+			if ex, ok := r.(*ssa.Extract); ok && ex.Index == 0 {
+				if _, good := isNorm(st, ex.Tuple); good {
+					return "key"
 				}
 			}
-			return false
+		} else if r == ssa.Value(keyParam) {
+			return "key"
+		}
+		return "other(" + st.Desc(k) + ")"
+	}
+	isReg := func(st *ConcState, m ssa.Value) bool {
+		return strings.HasSuffix(st.Desc(m), reg) || strings.HasSuffix(Desc(m), reg)
+	}
+	muSuffix := mutex[strings.LastIndex(mutex, ".")+1:]
+	lockEv := func(st *ConcState, cc *ssa.CallCommon) string {
+		sc := cc.StaticCallee()
+		if sc == nil || len(cc.Args) == 0 {
+			return ""
+		}
+		d := Desc(cc.Args[0])
+		if !strings.HasSuffix(strings.TrimPrefix(d, "&"), muSuffix) {
+			return ""
+		}
+		switch sc.String() {
+		case "(*sync.Mutex).Lock", "(*sync.RWMutex).Lock":
+			return "lock"
+		case "(*sync.RWMutex).RLock":
+			return "rlock"
+		case "(*sync.Mutex).Unlock", "(*sync.RWMutex).Unlock", "(*sync.RWMutex).RUnlock":
+			return "unlock"
+		}
+		return ""
+	}
+	nStores := 0
+	AllInstrs(fn, func(i ssa.Instruction) {})
+	seqs, trunc := ConcPaths(fn, ConcCfg{
+		Inline: func(h *ssa.Function) bool { return h.String() != "go.uber.org/zap.normalizeScheme" },
+		Event: func(in ssa.Instruction, st *ConcState) string {
+			switch x := in.(type) {
+			case *ssa.Call:
+				return lockEv(st, &x.Call)
+			case *ssa.MapUpdate:
+				if isReg(st, x.Map) {
+					nStores++
+					return "store:" + keyName(st, x.Key)
+				}
+			case *ssa.Return:
+				if len(x.Results) == 0 {
+					return "ret-nil"
+				}
+				if n, known := st.IsNil(x.Results[len(x.Results)-1]); known && n {
+					return "ret-nil"
+				}
+				return "ret-err"
+			}
+			return ""
+		},
+		Branch: func(cond ssa.Value, taken bool, st *ConcState) string {
+			pol := taken
+			for k := 0; k < 8; k++ {
+				if u, ok := cond.(*ssa.UnOp); ok && u.Op == token.NOT {
+					cond, pol = u.X, !pol
+					continue
+				}
+				if nx := st.Step(cond); nx != nil {
+					cond = nx
+					continue
+				}
+				break
+			}
+			side := func(yes bool, a, b string) string {
+				if yes == pol {
+					return a
+				}
+				return b
+			}
+			if ex, ok := cond.(*ssa.Extract); ok && ex.Index == 1 {
+				if lk, ok := ex.Tuple.(*ssa.Lookup); ok && isReg(st, lk.X) {
+					return side(true, "present:", "absent:") + keyName(st, lk.Index)
+				}
+			}
+			bo, ok := cond.(*ssa.BinOp)
+			if !ok {
+				return ""
+			}
+			x, y := resolve(st, bo.X), resolve(st, bo.Y)
+			if IsNilConst(bo.Y) && (bo.Op == token.EQL || bo.Op == token.NEQ) {
+				if ex, ok := x.(*ssa.Extract); ok && ex.Index == 1 {
+					if _, good := isNorm(st, ex.Tuple); good {
+						return side(bo.Op == token.EQL, "valid", "invalid")
+					}
+				}
+				if lk, ok := x.(*ssa.Lookup); ok && !lk.CommaOk && isReg(st, lk.X) {
+					return side(bo.Op == token.NEQ, "present:", "absent:") + keyName(st, lk.Index)
+				}
+				return ""
+			}
+			// emptiness of the key parameter: key == "" / len(key) <op> k
+			op := bo.Op
+			if kc, isC := x.(*ssa.Const); isC {
+				if _, isC2 := y.(*ssa.Const); !isC2 {
+					x, y = y, kc
+					switch op {
+					case token.LSS:
+						op = token.GTR
+					case token.GTR:
+						op = token.LSS
+					case token.LEQ:
+						op = token.GEQ
+					case token.GEQ:
+						op = token.LEQ
+					}
+				}
+			}
+			yc, ok := y.(*ssa.Const)
+			if !ok || yc.Value == nil {
+				return ""
+			}
+			var atZero, known bool
+			if x == ssa.Value(keyParam) && yc.Value.Kind() == constant.String && constant.StringVal(yc.Value) == "" {
+				switch op {
+				case token.EQL:
+					atZero, known = true, true
+				case token.NEQ:
+					atZero, known = false, true
+				}
+			} else if cl, isCall := x.(*ssa.Call); isCall && CallBuiltin(cl) == "len" && resolve(st, cl.Call.Args[0]) == ssa.Value(keyParam) {
+				if k, isInt := ConstInt(yc); isInt {
+					known = true
+					switch op {
+					case token.EQL:
+						atZero = 0 == k
+					case token.NEQ:
+						atZero = 0 != k
+					case token.LSS:
+						atZero = 0 < k
+					case token.LEQ:
+						atZero = 0 <= k
+					case token.GTR:
+						atZero = 0 > k
+					case token.GEQ:
+						atZero = 0 >= k
+					default:
+						known = false
+					}
+				}
+			}
+			if !known {
+				return ""
+			}
+			// the side on which the condition's value differs from its value for the empty string excludes ""
+			if pol != atZero {
+				return "nonempty"
+			}
+			return "maybe-empty"
+		},
+	})
+	if trunc || len(seqs) == 0 {
+		c.Und("R19.4", name, "paths", fn.Pos(), "path exploration of %s incomplete (%d sequences)", name, len(seqs))
+		return
+	}
+	type slot struct {
+		name, doc string
+		bad       []string
+	}
+	var slots []*slot
+	get := func(n, doc string) *slot {
+		for _, s := range slots {
+			if s.name == n {
+				return s
+			}
+		}
+		s := &slot{name: n, doc: doc}
+		slots = append(slots, s)
+		return s
+	}
+	for _, g := range guards {
+		get("guard/"+g, "the store into "+reg+" happens only after "+g)
+	}
+	get("guard/not-present", "the store happens only after a failed lookup of the same key")
+	get("key", "stored under "+keyDesc)
+	get("locked", "store and lookups run with "+mutex+" write-locked")
+	get("no-error-after-store", "no error is returned after the registry was modified; a nil return means the factory was stored")
+	get("single-store", "one store per call")
+	withStore := 0
+	for _, sq := range seqs {
+		toks := strings.Split(sq, " ; ")
+		storeAt := -1
+		nst := 0
+		for i, t := range toks {
+			if strings.HasPrefix(t, "store:") {
+				if storeAt < 0 {
+					storeAt = i
+				}
+				nst++
+			}
+		}
+		// lock state along the path
+		locked := false
+		lockOK := true
+		for _, t := range toks {
+			switch {
+			case t == "lock":
+				locked = true
+			case t == "unlock", t == "rlock":
+				locked = false
+			case strings.HasPrefix(t, "store:"), strings.HasPrefix(t, "present:"), strings.HasPrefix(t, "absent:"):
+				if !locked {
+					lockOK = false
+				}
+			}
+		}
+		if !lockOK {
+			s := get("locked", "")
+			s.bad = append(s.bad, sq)
+		}
+		last := toks[len(toks)-1]
+		if storeAt < 0 {
+			if last == "ret-nil" {
+				s := get("no-error-after-store", "")
+				s.bad = append(s.bad, "returns nil without storing: "+sq)
+			}
+			continue
+		}
+		withStore++
+		before := map[string]bool{}
+		for _, t := range toks[:storeAt] {
+			before[t] = true
 		}
 		for _, g := range guards {
-			c.Check(has(g), "R19.4", name, "guard/"+g, mu.Pos(), "store into %s is dominated by %s (guards: %v)", reg, g, atoms)
-		}
-		// absence test: !lookup(reg)[key]#1
-		absent := false
-		for _, a := range atoms {
-			if strings.HasPrefix(a, "!") && strings.Contains(a, reg+"["+keyDesc+"]#1") {
-				absent = true
+			need := "nonempty"
+			if strings.HasPrefix(g, "normalizeScheme(") {
+				need = "valid"
+			}
+			if !before[need] {
+				s := get("guard/"+g, "")
+				s.bad = append(s.bad, sq)
 			}
 		}
-		c.Check(absent, "R19.4", name, "guard/not-present", mu.Pos(), "store is dominated by a failed lookup of the same key (guards: %v)", atoms)
-		c.Check(Desc(mu.Key) == keyDesc, "R19.4", name, "key", mu.Pos(), "stored under key %s (must be %s)", Desc(mu.Key), keyDesc)
-		c.Check(held[mu][mutex] == 1, "R19.4", name, "locked", mu.Pos(), "store runs with lockset %s (needs W:%s)", held[mu], mutex)
-		var w ssa.Instruction
-		for _, r := range Returns(fn) {
-			if errResultMayBeNonNil(r) && ExistsPath(fn, mu, func(x ssa.Instruction) bool { return x == ssa.Instruction(r) }, nil) {
-				w = r
-			}
+		if !before["absent:key"] {
+			s := get("guard/not-present", "")
+			s.bad = append(s.bad, sq)
 		}
-		c.Check(w == nil, "R19.4", name, "no-error-after-store", mu.Pos(), "no error return is reachable after the registry was modified")
-	})
-	if n != 1 {
-		c.Bad("R19.4", name, "single-store", fn.Pos(), "expected exactly one map store into %s, found %d", reg, n)
+		if toks[storeAt] != "store:key" {
+			s := get("key", "")
+			s.bad = append(s.bad, sq)
+		}
+		if nst != 1 {
+			s := get("single-store", "")
+			s.bad = append(s.bad, sq)
+		}
+		if last != "ret-nil" {
+			s := get("no-error-after-store", "")
+			s.bad = append(s.bad, sq)
+		}
 	}
+	if withStore == 0 {
+		s := get("single-store", "")
+		s.bad = append(s.bad, "no path stores into "+reg)
+	}
+	for _, s := range slots {
+		ex := ""
+		if len(s.bad) > 0 {
+			ex = s.bad[0]
+		}
+		c.Check(len(s.bad) == 0, "R19.4", name, s.name, fn.Pos(), "by path exploration (%d paths, %d storing): %s (offending path: %s)", len(seqs), withStore, s.doc, ex)
+	}
+}
+
+// c19FileOpen: what newFileSinkFromPath does with the path it is given, by path exploration. The words "stdout" and
+// "stderr" are recognised in the path exactly as given; everything else is opened under exactly that name, for
+// writing, in append mode (two descriptors on one file - the same path twice in zap.Open, OutputPaths and
+// ErrorOutputPaths naming one file - then still add whole lines at the end instead of overwriting each other) and
+// created when missing.
+func c19FileOpen(c *Ctx, rule string) {
+	fn := c.Method(ZapPath, "sinkRegistry", "newFileSinkFromPath")
+	if !c.Anchor(rule, "zap.sinkRegistry.newFileSinkFromPath", fn != nil) {
+		return
+	}
+	name := fn.String()
+	var param *ssa.Parameter
+	for _, p := range fn.Params {
+		if b, ok := p.Type().Underlying().(*types.Basic); ok && b.Kind() == types.String {
+			param = p
+		}
+	}
+	osConst := func(n string) (int64, bool) {
+		if o, ok := c.Obj("os", n).(*types.Const); ok {
+			return constant.Int64Val(o.Val())
+		}
+		return 0, false
+	}
+	oAppend, ok1 := osConst("O_APPEND")
+	oCreate, ok2 := osConst("O_CREATE")
+	oWronly, ok3 := osConst("O_WRONLY")
+	oRdwr, ok4 := osConst("O_RDWR")
+	if !c.Anchor(rule, "string parameter and os.O_* constants", param != nil && ok1 && ok2 && ok3 && ok4) {
+		return
+	}
+	resolve := func(st *ConcState, v ssa.Value) ssa.Value {
+		v = stripConv(v)
+		for k := 0; k < 12; k++ {
+			nx := st.Step(v)
+			if nx == nil {
+				break
+			}
+			v = stripConv(nx)
+		}
+		return v
+	}
+	isOpener := func(cc *ssa.CallCommon) bool {
+		if cc.IsInvoke() {
+			return false
+		}
+		sig, ok := cc.Value.Type().Underlying().(*types.Signature)
+		if !ok || sig.Params().Len() != 3 || sig.Results().Len() != 2 {
+			return false
+		}
+		return sig.Params().At(0).Type().String() == "string" && sig.Results().At(0).Type().String() == "*os.File" &&
+			strings.HasSuffix(sig.Params().At(2).Type().String(), "FileMode")
+	}
+	seqs, trunc := ConcPaths(fn, ConcCfg{
+		Event: func(in ssa.Instruction, st *ConcState) string {
+			switch x := in.(type) {
+			case *ssa.Call:
+				if isOpener(&x.Call) {
+					nm := "path"
+					if resolve(st, x.Call.Args[0]) != ssa.Value(param) {
+						nm = "other(" + st.Desc(x.Call.Args[0]) + ")"
+					}
+					fl := "?"
+					if k, ok := st.Int(x.Call.Args[1]); ok {
+						fl = "flags-ok"
+						if k&oAppend == 0 {
+							fl = "no-append"
+						} else if k&oCreate == 0 {
+							fl = "no-create"
+						} else if k&(oWronly|oRdwr) == 0 {
+							fl = "not-writable"
+						}
+					}
+					return "open:" + nm + ":" + fl
+				}
+			case *ssa.Return:
+				return "ret"
+			}
+			return ""
+		},
+		Branch: func(cond ssa.Value, taken bool, st *ConcState) string {
+			pol := taken
+			for k := 0; k < 8; k++ {
+				if u, ok := cond.(*ssa.UnOp); ok && u.Op == token.NOT {
+					cond, pol = u.X, !pol
+					continue
+				}
+				if nx := st.Step(cond); nx != nil {
+					cond = nx
+					continue
+				}
+				break
+			}
+			bo, ok := cond.(*ssa.BinOp)
+			if !ok || (bo.Op != token.EQL && bo.Op != token.NEQ) {
+				return ""
+			}
+			x, y := resolve(st, bo.X), resolve(st, bo.Y)
+			if _, isC := x.(*ssa.Const); isC {
+				x, y = y, x
+			}
+			yc, ok := y.(*ssa.Const)
+			if !ok || yc.Value == nil || yc.Value.Kind() != constant.String {
+				return ""
+			}
+			w := constant.StringVal(yc.Value)
+			if w != "stdout" && w != "stderr" {
+				return ""
+			}
+			eq := pol == (bo.Op == token.EQL)
+			who := "path"
+			if x != ssa.Value(param) {
+				who = "other(" + st.Desc(x) + ")"
+			}
+			if eq {
+				return who + "==" + w
+			}
+			return who + "!=" + w
+		},
+	})
+	if trunc || len(seqs) == 0 {
+		c.Und(rule, name, "file-open", fn.Pos(), "path exploration incomplete (%d sequences)", len(seqs))
+		return
+	}
+	var badName, badFlags, badWords, badShape []string
+	opens := 0
+	for _, sq := range seqs {
+		toks := strings.Split(sq, " ; ")
+		nOpen, std := 0, false
+		for _, t := range toks {
+			switch {
+			case strings.HasPrefix(t, "open:"):
+				nOpen++
+				f := strings.Split(t, ":")
+				if f[1] != "path" {
+					badName = append(badName, sq)
+				}
+				if f[len(f)-1] != "flags-ok" {
+					badFlags = append(badFlags, sq)
+				}
+			case strings.HasPrefix(t, "other("):
+				badWords = append(badWords, sq)
+			case t == "path==stdout", t == "path==stderr":
+				std = true
+			}
+		}
+		opens += nOpen
+		if (std && nOpen != 0) || (!std && nOpen != 1) {
+			badShape = append(badShape, sq)
+		}
+	}
+	first := func(l []string) string {
+		if len(l) == 0 {
+			return ""
+		}
+		return l[0]
+	}
+	c.Check(len(badName) == 0 && opens > 0, rule, name, "opens-exactly-path", fn.Pos(), "by path exploration (%d paths): the file opener is called with exactly the path given (offending path: %s)", len(seqs), first(badName))
+	c.Check(len(badFlags) == 0 && opens > 0, rule, name, "append-create-write", fn.Pos(), "the file is opened for writing with O_APPEND and O_CREATE (evaluated flag word; offending path: %s)", first(badFlags))
+	c.Check(len(badWords) == 0, rule, name, "std-words-verbatim", fn.Pos(), "\"stdout\"/\"stderr\" are recognised in the path exactly as given, not in a rewritten form (offending path: %s)", first(badWords))
+	c.Check(len(badShape) == 0, rule, name, "open-or-std", fn.Pos(), "every path either recognised stdout/stderr and opens nothing, or opens exactly one file (offending path: %s)", first(badShape))
 }
